@@ -2,7 +2,8 @@ import GradysProofs.Lemmas.Assertion
 /-
   C18 — simulation assertions fail exactly when, and as soon as, they are violated.
   For every list of decorated assertions registered with one AssertionHandler, every set of nodes with
-  their protocol types, every timeline of predicate values and every run length N.
+  their protocol types (`Nodes.isA`: the instance-of relation, so a node of a derived protocol class is a
+  node of the stated base type), every timeline of predicate values and every run length N.
   `eager = true` is the repaired bookkeeping (patches/F18.patch), `eager = false` the pinned one.
 -/
 set_option linter.unusedSectionVars false
@@ -12,7 +13,7 @@ open Assertion
 
 /-- after the event of iteration `i` the always-assertion `s` does not hold -/
 def Violated (ns : Nodes) : Spec → Nat → Prop
-  | .alwaysProto T pred, i => ∃ node, node < ns.n ∧ ns.ptype node = T ∧ pred i node = false
+  | .alwaysProto T pred, i => ∃ node, node < ns.n ∧ ns.isA node T = true ∧ pred i node = false
   | .alwaysSim pred, i => pred i = false
   | _, _ => False
 
@@ -20,13 +21,13 @@ def Violated (ns : Nodes) : Spec → Nat → Prop
     (for some node of its protocol type, when protocol-scoped) -/
 def NeverMet (ns : Nodes) : Spec → Nat → Prop
   | .eventuallySim pred, N => ∀ j, j < N → pred j = false
-  | .eventuallyProto T pred, N => ∃ node, node < ns.n ∧ ns.ptype node = T ∧ ∀ j, j < N → pred j node = false
+  | .eventuallyProto T pred, N => ∃ node, node < ns.n ∧ ns.isA node T = true ∧ ∀ j, j < N → pred j node = false
   | _, _ => False
 
 theorem violatedAt_iff (ns : Nodes) (s : Spec) (i : Nat) : s.violatedAt ns i = true ↔ Violated ns s i := by
   cases s with
   | alwaysProto T pred =>
-    simp only [Spec.violatedAt, Violated, List.any_eq_true, List.mem_range, Bool.and_eq_true, beq_iff_eq,
+    simp only [Spec.violatedAt, Violated, List.any_eq_true, List.mem_range, Bool.and_eq_true,
       Bool.not_eq_true']
   | alwaysSim pred => simp [Spec.violatedAt, Violated]
   | eventuallyProto T pred => simp [Spec.violatedAt, Violated]
@@ -43,7 +44,7 @@ theorem neverMet_iff (ns : Nodes) (eager : Bool) (s : Spec) (N : Nat) :
     simp
   | eventuallyProto T pred =>
     simp only [Spec.neverMet, NeverMet, Bool.and_eq_true, Bool.or_eq_true, decide_eq_true_eq,
-      List.any_eq_true, List.mem_range, beq_iff_eq, Bool.not_eq_true', everTrue_eq_false]
+      List.any_eq_true, List.mem_range, Bool.not_eq_true', everTrue_eq_false]
     constructor
     · rintro ⟨h1, h2⟩
       exact ⟨h2, fun _ => h1⟩
@@ -122,7 +123,7 @@ theorem C18_eventually_sim (ns : Nodes) (eager : Bool) (pred : Nat → Bool) (N 
     of type `T`) -/
 theorem C18_eventually_proto (ns : Nodes) (T : PType) (pred : Nat → NodeId → Bool) (N : Nat) :
     (run ns true [.eventuallyProto T pred] N).verdict = .failedAtEnd ↔
-      ∃ node, node < ns.n ∧ ns.ptype node = T ∧ ∀ j, j < N → pred j node = false := by
+      ∃ node, node < ns.n ∧ ns.isA node T = true ∧ ∀ j, j < N → pred j node = false := by
   rw [C18_eventually]
   simp [Violated, NeverMet]
 
@@ -131,7 +132,7 @@ theorem C18_eventually_proto (ns : Nodes) (T : PType) (pred : Nat → NodeId →
 theorem C18_eventually_proto_partial (ns : Nodes) (T : PType) (pred : Nat → NodeId → Bool) (N : Nat)
     (hN : 1 ≤ N) :
     (run ns false [.eventuallyProto T pred] N).verdict = .failedAtEnd ↔
-      ∃ node, node < ns.n ∧ ns.ptype node = T ∧ ∀ j, j < N → pred j node = false := by
+      ∃ node, node < ns.n ∧ ns.isA node T = true ∧ ∀ j, j < N → pred j node = false := by
   rw [C18_eventually]
   have : 0 < N := hN
   simp [Violated, NeverMet, this]
@@ -139,18 +140,18 @@ theorem C18_eventually_proto_partial (ns : Nodes) (T : PType) (pred : Nat → No
 /-- Finding F18: with zero executed events, one node of the asserted type and a predicate that is
     never true, the pinned code PASSES (its per-node dictionary is still empty) … -/
 theorem C18_eventually_proto_zero_events :
-    (run ⟨1, fun _ => 0⟩ false [.eventuallyProto 0 (fun _ _ => false)] 0) = ⟨0, .passed⟩ ∧
-    (run ⟨1, fun _ => 0⟩ false [.eventuallySim (fun _ => false)] 0) = ⟨0, .failedAtEnd⟩ ∧
-    (run ⟨1, fun _ => 0⟩ true [.eventuallyProto 0 (fun _ _ => false)] 0) = ⟨0, .failedAtEnd⟩ := by
+    (run ⟨1, fun _ T => T == 0⟩ false [.eventuallyProto 0 (fun _ _ => false)] 0) = ⟨0, .passed⟩ ∧
+    (run ⟨1, fun _ T => T == 0⟩ false [.eventuallySim (fun _ => false)] 0) = ⟨0, .failedAtEnd⟩ ∧
+    (run ⟨1, fun _ T => T == 0⟩ true [.eventuallyProto 0 (fun _ _ => false)] 0) = ⟨0, .failedAtEnd⟩ := by
   decide
 
 /-- … so the full statement, without `1 ≤ N`, is false for the pinned bookkeeping -/
 theorem C18_eventually_proto_unguarded_false :
     ¬ (∀ (ns : Nodes) (T : PType) (pred : Nat → NodeId → Bool) (N : Nat),
         (run ns false [.eventuallyProto T pred] N).verdict = .failedAtEnd ↔
-          ∃ node, node < ns.n ∧ ns.ptype node = T ∧ ∀ j, j < N → pred j node = false) := by
+          ∃ node, node < ns.n ∧ ns.isA node T = true ∧ ∀ j, j < N → pred j node = false) := by
   intro h
-  have h0 := (h ⟨1, fun _ => 0⟩ 0 (fun _ _ => false) 0).mpr ⟨0, by decide, rfl, fun _ _ => rfl⟩
+  have h0 := (h ⟨1, fun _ T => T == 0⟩ 0 (fun _ _ => false) 0).mpr ⟨0, by decide, rfl, fun _ _ => rfl⟩
   exact absurd h0 (by decide)
 
 /-- After an interrupting failure the run executes no further event: exactly the events of
@@ -173,7 +174,7 @@ theorem C18_no_event_after_failure (ns : Nodes) (eager : Bool) (specs : List Spe
 
 /-- three nodes of types 0,1,0; the predicate of node 2 (the LAST node of type 0) turns false after
     the event of iteration 2 -/
-def mixed : Nodes := ⟨3, fun n => if n = 1 then 1 else 0⟩
+def mixed : Nodes := ⟨3, fun n T => T == (if n = 1 then 1 else 0)⟩
 
 example : run mixed true [.alwaysProto 0 (fun i n => !(n == 2 && i ≥ 2)), .eventuallySim (fun _ => false)] 5
     = ⟨3, .failedAfter 2⟩ := by decide
@@ -185,5 +186,18 @@ example : run mixed true [.alwaysProto 1 (fun i n => !(n == 2 && i ≥ 2)), .eve
 /-- … and is missed when the run stops one event earlier -/
 example : run mixed false [.alwaysProto 1 (fun i n => !(n == 2 && i ≥ 2)), .eventuallyProto 0 (fun i _ => i == 4)] 4
     = ⟨4, .failedAtEnd⟩ := by decide
+
+/-- a class hierarchy: nodes 0 and 2 run class 0, node 1 runs class 1, both derive from class 7 (a common base
+    protocol).  An always-assertion stated for the BASE class is violated by a node of a derived class … -/
+def derived : Nodes := Nodes.ofClasses 3 (fun n => if n = 1 then 1 else 0) (fun _ T => T == 7)
+
+example : run derived true [.alwaysProto 7 (fun i n => !(n == 1 && i ≥ 2))] 5 = ⟨3, .failedAfter 2⟩ := by decide
+
+/-- … stated for class 0 the same predicate never fails (node 1 is no instance of class 0); an
+    eventually-assertion stated for the base class waits for the nodes of every derived class -/
+example : run derived true [.alwaysProto 0 (fun i n => !(n == 1 && i ≥ 2)),
+    .eventuallyProto 7 (fun i n => i == n)] 3 = ⟨3, .passed⟩ := by decide
+
+example : run derived true [.eventuallyProto 7 (fun i n => i == n)] 2 = ⟨2, .failedAtEnd⟩ := by decide
 
 end C18
